@@ -26,6 +26,11 @@ pub enum ChurnOp {
     /// drop the first of the listeners created before the sends (the lowest stream id: every other entry of the live
     /// list moves when it goes)
     DropFirst,
+    /// drop the last of the listeners created before the sends (the highest stream id: nothing else moves)
+    DropLast,
+    /// wait until `running_streams_count()` says there is room for one more stream, then create a listener for new events
+    /// (what a user does who replaces a listener: with every stream id in use, the new listener gets a recycled id)
+    AddWhenRoom,
 }
 
 #[derive(Clone, Debug, Serialize, Deserialize)]
@@ -44,6 +49,9 @@ pub struct MultiParams {
     pub churn: Vec<ChurnOp>,
     /// events sent (sequentially) before anything else starts -- history for late subscribers of the log channel
     pub presend: u32,
+    /// operations of a second churn thread (listeners created and dropped concurrently with the first one's)
+    #[serde(default)]
+    pub churn2: Vec<ChurnOp>,
 }
 
 #[derive(Clone, Debug)]
@@ -105,44 +113,79 @@ pub fn multi_body(p: &MultiParams, flush_and_end: bool, check_capacity: bool) ->
     let mut handles = vec![];
     let first_listener: Arc<HLock<Option<shuttle::thread::JoinHandle<()>>>> = Arc::new(HLock::new(None));
     let n_prod = p.producers.len();
-    let drops_first = p.churn.contains(&ChurnOp::DropFirst);
+    // the one initial listener a churn thread drops (if any): the first or the last
+    let all_churn: Vec<ChurnOp> = p.churn.iter().chain(p.churn2.iter()).copied().collect();
+    let special: Option<usize> = if all_churn.contains(&ChurnOp::DropFirst) {
+        Some(0)
+    } else if all_churn.contains(&ChurnOp::DropLast) && p.listeners > 0 {
+        Some(p.listeners - 1)
+    } else {
+        None
+    };
+    let special_no = special.map(|l| 100 + l).unwrap_or(usize::MAX);
     for l in 0..p.listeners {
         let inv = ctx::stamp();
         let stream = ch.create_stream();
         let ret = ctx::stamp();
         let d = harness::new_driver();
         let thread_no = 100 + l;
-        listeners.lock().unwrap().push(ListenerRec { thread_no, driver: d, throughout: !(drops_first && l == 0), how: Subscribe::New, old_half: false, created: (inv, ret), removed: None });
+        listeners.lock().unwrap().push(ListenerRec { thread_no, driver: d, throughout: special != Some(l), how: Subscribe::New, old_half: false, created: (inv, ret), removed: None });
         let shared2 = Arc::clone(&shared);
         let cfg = DriverCfg { hold: p.hold, spurious_poll: p.spurious_poll, waker_churn: p.waker_churn };
         let h = shuttle::thread::spawn(move || driver_thread(stream, shared2, d, thread_no, cfg));
-        if drops_first && l == 0 {
+        if special == Some(l) {
             *first_listener.lock().unwrap() = Some(h);
         } else {
             handles.push(h);
         }
     }
-    // the churn thread
-    let churn_handle = if p.churn.is_empty() {
-        None
-    } else {
-        let (ch2, shared2, listeners2, ops, hold) = (Arc::clone(&ch), Arc::clone(&shared), Arc::clone(&listeners), p.churn.clone(), p.hold);
+    // the churn thread(s)
+    let spawn_churn = |ops: Vec<ChurnOp>, first_no: usize| {
+        let (ch2, shared2, listeners2, hold) = (Arc::clone(&ch), Arc::clone(&shared), Arc::clone(&listeners), p.hold);
         let first_listener2 = Arc::clone(&first_listener);
-        Some(shuttle::thread::spawn(move || {
+        let max_streams = p.max_streams as u32;
+        shuttle::thread::spawn(move || {
             let mut own: Vec<(usize, shuttle::thread::JoinHandle<()>)> = vec![];
-            let mut next_no = 200;
+            let mut next_no = first_no;
             for op in ops {
                 harness_point();
                 match op {
-                    ChurnOp::Add | ChurnOp::AddOldAndNew | ChurnOp::AddSplit => {
+                    ChurnOp::Add | ChurnOp::AddOldAndNew | ChurnOp::AddSplit | ChurnOp::AddWhenRoom => {
+                        if op == ChurnOp::AddWhenRoom {
+                            let mut spins = 0u64;
+                            while ch2.running_streams() >= max_streams {
+                                harness_yield();
+                                spins += 1;
+                                if ctx::aborted() {
+                                    return own;
+                                }
+                                if spins > 50_000 {
+                                    panic!("harness: AddWhenRoom never saw room");
+                                }
+                            }
+                        }
                         let how = match op {
-                            ChurnOp::Add => Subscribe::New,
+                            ChurnOp::Add | ChurnOp::AddWhenRoom => Subscribe::New,
                             ChurnOp::AddOldAndNew => Subscribe::OldAndNewJoined,
                             _ => Subscribe::OldAndNewSplit,
                         };
                         ctx::op_mark("create_stream");
                         let inv = ctx::stamp();
-                        let streams = ch2.subscribe(how);
+                        let streams = if op == ChurnOp::AddWhenRoom {
+                            // `running_streams_count()` goes down a few instructions before the dropped stream's id is handed
+                            // back: a creation that lands in between panics with "exhausted". The property is stated over
+                            // histories in which a drop has returned before the next creation starts, so such a run is not
+                            // judged: it is counted and abandoned
+                            match std::panic::catch_unwind(std::panic::AssertUnwindSafe(|| ch2.subscribe(how))) {
+                                Ok(s) => s,
+                                Err(_) => {
+                                    ctx::with_ctx(|c| *c.probes.entry("harness.recycle.creation_raced_with_a_drop_in_progress.run_not_judged").or_insert(0) += 1);
+                                    ctx::abort_run("inconclusive: a stream was created while the drop that makes room for it was still in progress".into());
+                                }
+                            }
+                        } else {
+                            ch2.subscribe(how)
+                        };
                         let ret = ctx::stamp();
                         ctx::op_mark("");
                         ctx::fault_fired("listener_churn");
@@ -151,24 +194,24 @@ pub fn multi_body(p: &MultiParams, flush_and_end: bool, check_capacity: bool) ->
                             let d = harness::new_driver();
                             let thread_no = next_no;
                             next_no += 1;
-                            ctx::trace(|| format!("churn: added listener t{} ({:?})", thread_no, how));
+                            ctx::trace(|| format!("churn: added listener t{} ({:?}, stream id {})", thread_no, how, stream.stream_id()));
                             listeners2.lock().unwrap().push(ListenerRec { thread_no, driver: d, throughout: false, how, old_half: n_streams == 2 && k == 0, created: (inv, ret), removed: None });
                             let shared3 = Arc::clone(&shared2);
                             let cfg = DriverCfg { hold, spurious_poll: 0, waker_churn: false };
                             own.push((thread_no, shuttle::thread::spawn(move || driver_thread(stream, shared3, d, thread_no, cfg))));
                         }
                     }
-                    ChurnOp::DropFirst => {
+                    ChurnOp::DropFirst | ChurnOp::DropLast => {
                         let h = first_listener2.lock().unwrap().take();
                         if let Some(h) = h {
-                            let d = listeners2.lock().unwrap().iter().find(|l| l.thread_no == 100).map(|l| l.driver).unwrap();
+                            let d = listeners2.lock().unwrap().iter().find(|l| l.thread_no == special_no).map(|l| l.driver).unwrap();
                             let inv = ctx::stamp();
                             harness::stop_driver(d);
                             let _ = h.join();
                             let ret = ctx::stamp();
                             ctx::fault_fired("listener_churn");
-                            ctx::trace(|| "churn: dropped the first listener (t100)".to_string());
-                            if let Some(l) = listeners2.lock().unwrap().iter_mut().find(|l| l.thread_no == 100) {
+                            ctx::trace(|| format!("churn: dropped initial listener t{}", special_no));
+                            if let Some(l) = listeners2.lock().unwrap().iter_mut().find(|l| l.thread_no == special_no) {
                                 l.removed = Some((inv, ret));
                             }
                         }
@@ -193,8 +236,10 @@ pub fn multi_body(p: &MultiParams, flush_and_end: bool, check_capacity: bool) ->
                 }
             }
             own
-        }))
+        })
     };
+    let churn_handle = if p.churn.is_empty() { None } else { Some(spawn_churn(p.churn.clone(), 200)) };
+    let churn2_handle = if p.churn2.is_empty() { None } else { Some(spawn_churn(p.churn2.clone(), 300)) };
     // ownership mode (C05): a releaser thread drops the handles the listeners hand over
     let own = crate::scn_held::own_cfg().is_some();
     let releaser = if own { Some(shuttle::thread::spawn(crate::scn_held::releaser_thread)) } else { None };
@@ -242,9 +287,9 @@ pub fn multi_body(p: &MultiParams, flush_and_end: bool, check_capacity: bool) ->
         for h in prod_handles.drain(..) {
             let _ = h.join();
         }
-        if let Some(h) = churn_handle {
-            if let Ok(own) = h.join() {
-                churn_own = own;
+        for h in [churn_handle, churn2_handle].into_iter().flatten() {
+            if let Ok(mut own) = h.join() {
+                churn_own.append(&mut own);
             }
         }
     }
@@ -551,7 +596,7 @@ pub fn draw_multi_params(rng: &mut Rng, tier: Tier, kinds: &[Kind], stream_grid:
     if kind != Kind::MultiMmapLog && rng.chance(1, 5) {
         sched.origin = u32::MAX - rng.below(3 * buffer as u64 + 2) as u32;
     }
-    MultiParams { sched, kind, buffer, max_streams, listeners, producers, hold: rng.below(3) as u32, spurious_poll: *rng.pick(&[0, 0, 64, 256]), waker_churn: rng.chance(1, 4), churn: vec![], presend: 0 }
+    MultiParams { sched, kind, buffer, max_streams, listeners, producers, hold: rng.below(3) as u32, spurious_poll: *rng.pick(&[0, 0, 64, 256]), waker_churn: rng.chance(1, 4), churn: vec![], presend: 0, churn2: vec![] }
 }
 
 pub fn shrink_multi(p: &MultiParams) -> Vec<MultiParams> {
@@ -584,6 +629,11 @@ pub fn shrink_multi(p: &MultiParams) -> Vec<MultiParams> {
     for i in (0..p.churn.len()).rev() {
         let mut q = p.clone();
         q.churn.remove(i);
+        out.push(q);
+    }
+    for i in (0..p.churn2.len()).rev() {
+        let mut q = p.clone();
+        q.churn2.remove(i);
         out.push(q);
     }
     if p.listeners > 1 {
@@ -626,7 +676,7 @@ pub fn shrink_multi(p: &MultiParams) -> Vec<MultiParams> {
 }
 
 pub fn size_multi(p: &MultiParams) -> u64 {
-    p.producers.iter().map(|o| o.len() as u64).sum::<u64>() * 4 + p.listeners as u64 * 2 + p.churn.len() as u64 * 3 + p.presend as u64 + p.buffer as u64
+    p.producers.iter().map(|o| o.len() as u64).sum::<u64>() * 4 + p.listeners as u64 * 2 + (p.churn.len() + p.churn2.len()) as u64 * 3 + p.presend as u64 + p.buffer as u64
 }
 
 const MULTI_ASSUMPTIONS: [&str; 3] = [
@@ -738,11 +788,25 @@ impl Scenario for C04Multi {
 }
 
 // ---------------------------------------------------------------------------------------------------- C17
+/// The shape of the churn is part of every C17 key: removing a listener that is not the last entry of the live list moves
+/// the entries behind it (under the senders' cursor), which is a different mechanism from churn at the tail of the list.
+/// `lowest_id_removed`: the first listener goes; `inner_id_removed`: two churn threads, one of which removes its listener
+/// while the other's (created later, so further back in the list) may exist; `tail_churn`: only the last entry ever changes.
+pub fn churn_shape(p: &MultiParams) -> &'static str {
+    if p.churn.contains(&ChurnOp::DropFirst) || p.churn2.contains(&ChurnOp::DropFirst) {
+        "lowest_id_removed"
+    } else if !p.churn2.is_empty() && (p.churn.contains(&ChurnOp::DropOwn) || p.churn2.contains(&ChurnOp::DropOwn)) {
+        "inner_id_removed"
+    } else {
+        "tail_churn"
+    }
+}
+
 pub struct C17;
 impl Scenario for C17 {
     multi_scenario_common!();
     fn key_context(&self, p: &MultiParams) -> String {
-        format!("{}/{}/", if p.churn.contains(&ChurnOp::DropFirst) { "lowest_id_removed" } else { "tail_churn" }, p.kind.name())
+        format!("{}/{}/", churn_shape(p), p.kind.name())
     }
     fn property(&self) -> &'static str {
         "C17"
@@ -776,6 +840,19 @@ impl Scenario for C17 {
                 0 => vec![ChurnOp::Add],
                 _ => vec![ChurnOp::Add, ChurnOp::DropOwn, ChurnOp::Add],
             };
+        } else if rng.chance(1, 3) {
+            // two churn threads: one listener is being dropped while another is being created (MAX_STREAMS is 4, two
+            // listeners exist throughout: each churn thread has at most one listener alive at a time)
+            p.churn = match rng.below(3) {
+                0 => vec![ChurnOp::Add, ChurnOp::DropOwn],
+                1 => vec![ChurnOp::Add, ChurnOp::DropOwn, ChurnOp::Add],
+                _ => vec![ChurnOp::Add],
+            };
+            p.churn2 = match rng.below(3) {
+                0 => vec![ChurnOp::Add, ChurnOp::DropOwn],
+                1 => vec![ChurnOp::Add, ChurnOp::DropOwn, ChurnOp::Add],
+                _ => vec![ChurnOp::Add],
+            };
         }
         p
     }
@@ -788,7 +865,11 @@ impl Scenario for C17 {
             }
             // the shape of the churn is part of every key: removing the listener with the lowest stream id moves every other
             // entry of the live list, which is a different mechanism from churn at the tail of the list
-            let family = if p2.churn.contains(&ChurnOp::DropFirst) { "multi_churn/lowest_id_removed" } else { "multi_churn/tail_churn" };
+            let family: &'static str = match churn_shape(&p2) {
+                "lowest_id_removed" => "multi_churn/lowest_id_removed",
+                "inner_id_removed" => "multi_churn/inner_id_removed",
+                _ => "multi_churn/tail_churn",
+            };
             for l in data.listeners.iter() {
                 let mode = match (l.throughout, l.removed.is_some()) {
                     (true, _) => 0,
@@ -805,6 +886,69 @@ impl Scenario for C17 {
                     };
                     ctx::report("C17", how, format!("{}/{}/{}", family, p2.kind.name(), how), format!("after everything was consumed and every handle released, {} of {} sends were accepted (and a further one: {}); after every stream id had been handed out again: {:?}", accepted, p2.buffer, one_more, after_reuse));
                 }
+            }
+        }))
+    }
+}
+
+// ---------------------------------------------------------------------------------------------------- C10 (engine-T part 2)
+/// A listener is replaced while events are being sent: with every stream id in use, the last listener is dropped (with
+/// whatever it has not consumed) by one thread while another thread -- which watches `running_streams_count()` for
+/// room, as a user replacing a listener would -- creates a new one, which gets the recycled stream id. The dropped
+/// listener always holds the highest id, so the live list is never compacted (that mechanism is C17's known finding).
+/// Oracle (C10): the new listener yields only events accepted while it existed (nothing its predecessor left behind),
+/// each once, in order, and every event whose send started after its creation had returned.
+pub struct C10Recycle;
+impl Scenario for C10Recycle {
+    multi_scenario_common!();
+    fn key_context(&self, p: &MultiParams) -> String {
+        format!("{}/", p.kind.name())
+    }
+    fn property(&self) -> &'static str {
+        "C10"
+    }
+    fn name(&self) -> &'static str {
+        "listener_recycle"
+    }
+    fn generate(&self, rng: &mut Rng, tier: Tier) -> MultiParams {
+        let mut p = draw_multi_params(rng, tier, &chan::MULTI_KINDS_NO_LOG, &[1, 2, 2], 2);
+        p.listeners = p.max_streams;
+        match rng.below(4) {
+            0 => {
+                p.churn = vec![ChurnOp::DropLast, ChurnOp::AddWhenRoom];
+                p.churn2 = vec![];
+            }
+            1 => {
+                p.churn = vec![ChurnOp::DropLast];
+                p.churn2 = vec![ChurnOp::AddWhenRoom];
+            }
+            2 => {
+                p.churn = vec![ChurnOp::DropLast];
+                p.churn2 = vec![ChurnOp::AddWhenRoom, ChurnOp::DropOwn];
+            }
+            _ => {
+                p.churn = vec![ChurnOp::DropLast];
+                p.churn2 = vec![ChurnOp::AddWhenRoom, ChurnOp::DropOwn, ChurnOp::AddWhenRoom];
+            }
+        }
+        // the listeners leave events unconsumed when they go: slow consumers
+        p.hold = 0;
+        p
+    }
+    fn body(&self, p: &MultiParams) -> Option<Body> {
+        let p2 = p.clone();
+        Some(Arc::new(move || {
+            let data = multi_body(&p2, true, false);
+            if ctx::aborted() {
+                return;
+            }
+            for l in data.listeners.iter() {
+                let mode = match (l.throughout, l.removed.is_some()) {
+                    (true, _) => 0,
+                    (false, false) => 1,
+                    (false, true) => 3,
+                };
+                check_listener("C10", "listener_recycle", &p2, &data, l, mode);
             }
         }))
     }
